@@ -1,10 +1,15 @@
 package engine
 
 import (
+	"bufio"
 	"bytes"
 	"encoding/json"
 	"fmt"
+	"io"
+	"os"
 	"sort"
+	"strings"
+	"testing/iotest"
 
 	"verif/sim/api"
 	"verif/sim/canon"
@@ -121,8 +126,18 @@ func plansFor(d corpus.Doc, lim c17Limits, r *prng.R) []simio.ReadPlan {
 			ps = append(ps, simio.ReadPlan{Name: "split", Chunks: []int{k}})
 		}
 	} else {
-		for _, k := range structureOffsets(d.Format, d.Data) {
-			ps = append(ps, simio.ReadPlan{Name: "split-aligned", Chunks: []int{k}})
+		// large document: every buffer boundary (bufio fills 4096 bytes at a time and doubles up to 65536) +-1,
+		// a seeded sample of the structure-aligned offsets and a seeded sample of arbitrary offsets
+		for k := 4096; k <= n; k += 4096 {
+			for _, dlt := range []int{-1, 0, 1} {
+				if k+dlt <= n {
+					ps = append(ps, simio.ReadPlan{Name: "split-aligned", Chunks: []int{k + dlt}})
+				}
+			}
+		}
+		so := structureOffsets(d.Format, d.Data)
+		for i := 0; i < lim.sampled && len(so) > 0; i++ {
+			ps = append(ps, simio.ReadPlan{Name: "split-aligned", Chunks: []int{so[r.Intn(len(so))]}})
 		}
 		for i := 0; i < lim.sampled; i++ {
 			ps = append(ps, simio.ReadPlan{Name: "split-sampled", Chunks: []int{r.Intn(n + 1)}})
@@ -239,6 +254,13 @@ func RunC17(cfg Config) (*ShardResult, error) {
 		dh := canon.HashBytes(d.Data)
 		plans := plansFor(d, lim, root.Derive("plans-"+d.Name, di))
 		for _, reader := range corpus.ReaderConfigs(d.Format) {
+			// real reader types (optional interfaces: Seeker, ByteReader, WriterTo, ReaderAt, *os.File) against
+			// the simulated source delivering everything at once: the result is a function of the bytes alone
+			if key := Key64(dh, reader, "real-readers"); cfg.Mine(key) {
+				for _, v := range c17RealReaders(cfg, reader, d, res) {
+					res.Violations = append(res.Violations, v)
+				}
+			}
 			for _, medium := range mediaFor(d.Format) {
 				var ref *canon.Outcome
 				for _, p := range plans {
@@ -282,6 +304,50 @@ func RunC17(cfg Config) (*ShardResult, error) {
 		}
 	}
 	return res, nil
+}
+
+// c17RealReaders runs the reader on standard-library reader types holding the same bytes.
+func c17RealReaders(cfg Config, reader string, d corpus.Doc, res *ShardResult) (vs []Violation) {
+	seekRef, _ := EvalRead(reader, d.Data, simio.ReadPlan{Medium: "seekable"})
+	plainRef, _ := EvalRead(reader, d.Data, simio.ReadPlan{Medium: "plain"})
+	bufRef, _ := EvalRead(reader, d.Data, simio.ReadPlan{Medium: "bufio"})
+	type rr struct {
+		name string
+		r    io.Reader
+		ref  canon.Outcome
+	}
+	rs := []rr{
+		{"bytes.Reader", bytes.NewReader(d.Data), seekRef},
+		{"strings.Reader", strings.NewReader(string(d.Data)), seekRef},
+		{"bytes.Buffer", bytes.NewBuffer(append([]byte(nil), d.Data...)), plainRef},
+		{"bufio.Reader(bytes.Reader)", bufio.NewReader(bytes.NewReader(d.Data)), bufRef},
+		{"iotest.OneByteReader", iotest.OneByteReader(bytes.NewReader(d.Data)), plainRef},
+		{"iotest.DataErrReader", iotest.DataErrReader(bytes.NewReader(d.Data)), plainRef},
+		{"io.LimitReader", io.LimitReader(bytes.NewReader(d.Data), int64(len(d.Data))), plainRef},
+	}
+	if f, err := os.CreateTemp(cfg.Scratch, "c17-*.bin"); err == nil {
+		defer os.Remove(f.Name())
+		defer f.Close()
+		if _, err := f.Write(d.Data); err == nil {
+			if _, err := f.Seek(0, io.SeekStart); err == nil {
+				rs = append(rs, rr{"os.File", f, seekRef})
+			}
+		}
+	}
+	for _, x := range rs {
+		o := api.ReadOutcome(reader, x.r)
+		res.Evaluations++
+		res.Probes["real_reader_types"]++
+		res.Note(canon.HashBytes(d.Data), reader, x.name, o.Key())
+		if o.Key() != x.ref.Key() {
+			sc, _ := json.Marshal(ReadScenario{Doc: d.Name, Reader: reader, Data: d.Data, Plan: simio.ReadPlan{Name: "real:" + x.name}})
+			vs = append(vs, Violation{Property: "C17", Class: "result-differs",
+				Signature: fmt.Sprintf("C17 %s real-reader=%s simulated=%s real=%s", reader, x.name, x.ref.Class, o.Class),
+				Detail:    fmt.Sprintf("doc=%s (%d bytes): the simulated source delivering everything at once -> %s items=%d; %s over the same bytes -> %s items=%d err=%q", d.Name, len(d.Data), x.ref.Class, x.ref.Items, x.name, o.Class, o.Items, trunc(o.Err, 160)),
+				Scenario:  sc})
+		}
+	}
+	return vs
 }
 
 func samplePlan(p simio.ReadPlan) simio.ReadPlan {
@@ -332,6 +398,15 @@ func c17Probes(res *ShardResult, d corpus.Doc, p simio.ReadPlan, sr *simio.Reade
 // CheckReadScenario re-evaluates one scenario (replay, minimisation).
 // It returns a violation or nil.
 func CheckReadScenario(sc ReadScenario) *Violation {
+	if strings.HasPrefix(sc.Plan.Name, "real:") {
+		res := NewShardResult()
+		for _, v := range c17RealReaders(Config{Scratch: os.TempDir()}, sc.Reader, corpus.Doc{Name: sc.Doc, Data: sc.Data}, res) {
+			if strings.Contains(v.Signature, "real-reader="+strings.TrimPrefix(sc.Plan.Name, "real:")+" ") {
+				return &v
+			}
+		}
+		return nil
+	}
 	ref, _ := EvalRead(sc.Reader, sc.Data, simio.ReadPlan{Medium: sc.Plan.Medium})
 	o, _ := EvalRead(sc.Reader, sc.Data, sc.Plan)
 	if o.Key() == ref.Key() {
